@@ -80,17 +80,25 @@ RULE = (
     '(step 0.1/0.7/0.3/1.1/0.05, or layers stretched by 1.05-1.3) whose n x '
     '2 bounds are written as centre -+ half width in float64 or float32, so '
     'adjacent rows share a vertex only up to rounding; the edge array is '
-    'then first vertices + last second vertex as documented.  Non-trivial: descending, or non-uniform, or a query '
+    'then first vertices + last second vertex as documented.  One case in '
+    'eight (value lookups and time2idx on int32 epoch seconds) uses an '
+    'integer coordinate (int16/int32/int64) within 0-7 of the top or bottom '
+    'of its type\'s range (int64: 2^50, kept exact in float64), steps 1 .. '
+    '86400, both directions: arithmetic in the coordinate\'s own type would '
+    'wrap there, and an in-domain query must not be rejected; a ValueError '
+    '"neither ascending nor descending" for these by-construction strictly '
+    'monotonic coordinates is a violation (other raises stay counted).  Non-trivial: descending, or non-uniform, or a query '
     'within 1 ulp of an edge/midpoint.  Distinct by sha1 of the case spec.')
 ASSUMPTIONS = ['IEEE double arithmetic and numpy comparison are the '
                'reference for "contains"/"closest"',
                'masked coordinates are outside the generated domain; a raise '
                'other than the requested out-of-bounds rejection is counted, '
                'not judged (R3)']
-BUDGET = {'quick': dict(examples=12800, max_s=200),
+BUDGET = {'quick': dict(examples=9600, max_s=200),
           'thorough': dict(examples=600000, max_s=2400)}
 
 Q = 0.25   # coordinate quantum
+CODE = {'f8': 'd', 'f4': 'f', 'i4': 'i', 'i2': 'h', 'i8': 'q'}
 NEAR = (1e-9, 1e-7, 1e-6, 1e-5, 1e-4)   # fractions of a cell width
 # UTC offsets (minutes) of timezone-aware query datetimes
 TZ_OFFSETS = [-360, 330, 540, -660, 345, 60, 0]
@@ -268,7 +276,37 @@ def cases(draw, tier='quick'):
     kind = draw(st.sampled_from(['val'] * 7 + ['time']))
     rows = None
     cstyle = 'dyadic'
-    if kind == 'val' and draw(st.integers(0, 6)) == 0:
+    tunit = None
+    if draw(st.integers(0, 7)) == 0:
+        # integer-typed coordinate close to the limits of its type (int32
+        # epoch seconds near 2038 / 1901, int16 heights near 32767, ...):
+        # arithmetic in the coordinate's own type would wrap
+        cdtype = draw(st.sampled_from(['i2', 'i4', 'i4', 'i8']))
+        if kind == 'time':
+            cdtype = 'i4'
+            tunit = 'seconds'
+        top = {'i2': 2 ** 15 - 1, 'i4': 2 ** 31 - 1, 'i8': 2 ** 50}[cdtype]
+        n = draw(st.sampled_from([2, 3, 4, 5, 8, 12]))
+        steps = draw(st.lists(st.sampled_from(
+            [1, 2, 3, 5, 8, 60] + ([] if cdtype == 'i2' else [3600, 86400])),
+            min_size=n - 1, max_size=n - 1))
+        if draw(st.booleans()):
+            steps = [steps[0]] * (n - 1)
+        gap = draw(st.sampled_from([0, 0, 1, 7]))
+        side = draw(st.sampled_from(['top', 'top', 'bottom']))
+        c = [top - gap]
+        for st_ in steps:
+            c.append(c[-1] - st_)
+        if side == 'bottom':
+            c = [-x - 1 for x in c]
+        if draw(st.booleans()):
+            c = c[::-1]
+        c = [float(x) for x in c]
+        cstyle = 'int-near-%s-of-type' % side
+        bkind = draw(st.sampled_from(['none', 'none', 'none', 'edges',
+                                      'nx2']))
+        edges = draw(edges_for(c)) if bkind != 'none' else None
+    elif kind == 'val' and draw(st.integers(0, 6)) == 0:
         c, rows, cstyle = draw(decimal_axis())
         cdtype = 'f4' if cstyle.endswith('/f4') else 'f8'
         bkind = draw(st.sampled_from(['nx2', 'nx2', 'nx2', 'edges', 'none']))
@@ -293,12 +331,14 @@ def cases(draw, tier='quick'):
                                    'exact']))
     spec = dict(kind=kind, coord=c, cdtype=cdtype, bkind=bkind, edges=edges,
         rows=rows, cstyle=cstyle,
+        **({'tunit': tunit} if tunit else {}))
+    spec.update(dict(
         bname=draw(st.sampled_from(['_bounds', '_bnds', 'attr'])),
         method=method, bounds=draw(st.sampled_from(
             ['ignore', 'warn', 'warn', 'error'])),
         clean=draw(st.sampled_from(['mask', 'mask', 'none'])),
         left=draw(st.sampled_from([None, None, 'nan'])),
-        right=draw(st.sampled_from([None, None, 'nan'])))
+        right=draw(st.sampled_from([None, None, 'nan']))))
     if kind == 'time':
         # time axis: the coordinate is in hours; queries at multiples of
         # 1/64 h (= 56.25 s, whole microseconds)
@@ -306,6 +346,9 @@ def cases(draw, tier='quick'):
             spec['cdtype'] = 'f8'
         spec['ref'] = [draw(st.integers(1950, 2050)), draw(st.integers(1, 12)),
                        draw(st.integers(1, 28)), draw(st.integers(0, 23))]
+        if tunit == 'seconds':
+            # epoch seconds in the coordinate's integer type
+            spec['ref'] = [1970, 1, 1, 0]
         pool = []
         allc = list(c) + (edges or [])
         mids = [(c[i] + c[i + 1]) / 2 for i in range(len(c) - 1)]
@@ -314,7 +357,7 @@ def cases(draw, tier='quick'):
         pool += [min(allc) - 50, max(allc) + 50]
         # cell width x {1e-6, 1e-5, 1e-4} around the decision points,
         # snapped to whole microseconds
-        for x, tag in _pool(c, edges):
+        for x, tag in (_pool(c, edges) if tunit is None else []):
             if tag == 'near-edge':
                 xs_ = round(x * 3600e6) / 3600e6
                 if abs(xs_ - x) * 50 < min(abs(xs_ - y) for y in allc + mids):
@@ -329,7 +372,7 @@ def cases(draw, tier='quick'):
         if qtz == 'offsets':
             qtz = [draw(st.sampled_from(TZ_OFFSETS)) for _ in idx]
         spec['qtz'] = qtz
-        if draw(st.integers(0, 2)) == 0:
+        if tunit is None and draw(st.integers(0, 2)) == 0:
             # two-phase history on one file object (see check_case)
             spec['phase2'] = dict(
                 tunit=draw(st.sampled_from(['hours', 'minutes', 'seconds'])),
@@ -406,7 +449,7 @@ def enumerate_cases(tier):
 def build(spec):
     from PseudoNetCDF import PseudoNetCDFFile
     dim = 'time' if spec['kind'] == 'time' else 'x'
-    code = {'f8': 'd', 'f4': 'f', 'i4': 'i'}[spec['cdtype']]
+    code = CODE[spec['cdtype']]
     c = np.array(spec['coord'], dtype=code)
     f = PseudoNetCDFFile()
     f.createDimension(dim, c.size)
@@ -419,7 +462,7 @@ def build(spec):
     else:
         v.units = 'm'
     if spec['bkind'] != 'none':
-        ecode = 'd' if code == 'i' else code
+        ecode = 'd' if code in 'ihq' else code
         e = np.array(spec['edges'], dtype=ecode)
         bname = dim + spec['bname'] if spec['bname'] != 'attr' else 'cell_e'
         if spec['bname'] == 'attr':
@@ -445,7 +488,7 @@ def rebase(f, spec):
     """rewrite the time axis of an existing file object in place: values
     and units attribute of the time variable (and the values of its bounds
     variable) as described by `spec`"""
-    code = {'f8': 'd', 'f4': 'f', 'i4': 'i'}[spec['cdtype']]
+    code = CODE[spec['cdtype']]
     v = f.variables['time']
     v[:] = np.array(spec['coord'], dtype=code)
     y, mo, d, h = spec['ref']
@@ -454,7 +497,7 @@ def rebase(f, spec):
     if spec['bkind'] != 'none':
         bname = 'time' + spec['bname'] if spec['bname'] != 'attr' \
             else 'cell_e'
-        e = np.array(spec['edges'], dtype='d' if code == 'i' else code)
+        e = np.array(spec['edges'], dtype='d' if code in 'ihq' else code)
         bv = f.variables[bname]
         if spec['bkind'] == 'edges':
             bv[:] = e
@@ -514,7 +557,7 @@ def _hull(c, spec, code):
     extension"""
     vals = [c.min(), c.max()]
     if spec['bkind'] != 'none':
-        e = np.array(spec['edges'], dtype='d' if code == 'i' else code)
+        e = np.array(spec['edges'], dtype='d' if code in 'ihq' else code)
         vals += [float(e.min()), float(e.max())]
     else:
         vals += [c[0] - (c[1] - c[0]) / 2, c[-1] + (c[-1] - c[-2]) / 2]
@@ -577,7 +620,7 @@ def check_case(spec):
 
 def _check_single(spec, fobj=None):
     r = Result()
-    code = {'f8': 'd', 'f4': 'f', 'i4': 'i'}[spec['cdtype']]
+    code = CODE[spec['cdtype']]
     c = np.array(spec['coord'], dtype=code).astype('d')
     n = c.size
     desc = bool(c[1] < c[0])
@@ -586,14 +629,14 @@ def _check_single(spec, fobj=None):
     hd = np.diff(np.array(spec['coord'], dtype=code)) / 2
     uniform = bool((hd == hd[0]).all())
     hasb = spec['bkind'] != 'none'
-    E = np.array(spec['edges'], dtype='d' if code == 'i' else code).astype(
+    E = np.array(spec['edges'], dtype='d' if code in 'ihq' else code).astype(
         'd') if hasb else None
     vertex_gap = 0.0
     if hasb and spec.get('rows'):
         # n x 2 bounds whose rows share vertices only up to rounding: the
         # documented edge array is first vertices + last second vertex; the
         # disagreement of the shared vertices widens the decision band
-        R = np.array(spec['rows'], dtype='d' if code == 'i' else code
+        R = np.array(spec['rows'], dtype='d' if code in 'ihq' else code
                      ).astype('d')
         E = np.append(R[:, 0], R[-1, 1])
         vertex_gap = float(np.abs(R[:-1, 1] - R[1:, 0]).max()) \
@@ -718,6 +761,17 @@ def _check_single(spec, fobj=None):
             return r
         if spec['bounds'] == 'error' and rejected:
             r.label('raised-ambiguous-range')
+            return r
+        if isinstance(exc, ValueError) and \
+                'neither ascending nor descending' in str(exc):
+            # the lookup refuses the coordinate as non-monotonic although it
+            # (and its bounds) are strictly monotonic by construction: a
+            # rejection of in-domain input on a false ground
+            r.fail('monotonic-rejected', 'val2idx raised %r for the '
+                   'strictly monotonic %s coordinate %r (method=%s, bounds '
+                   'variable: %s)' % (str(exc)[:120], spec['cdtype'],
+                                      spec['coord'][:6], method,
+                                      spec['bkind']), klass=klass0)
             return r
         # any other exception: the property does not demand completion (R3),
         # counted
@@ -933,7 +987,7 @@ def _is_desc(spec):
 
 
 def _uniform(spec):
-    code = {'f8': 'd', 'f4': 'f', 'i4': 'i'}[spec['cdtype']]
+    code = CODE[spec['cdtype']]
     d = np.diff(np.array(spec['coord'], dtype=code))
     return bool((d == d[0]).all())
 
